@@ -226,6 +226,32 @@ let run_out atomic = function
                                        | None -> A "none" | Some c -> A (atom_of_bytes c)) | _ -> failwith "probe") probes)])
   | _ -> failwith "out"
 
+(* ---- C16 / C09: one invocation of `ucg build f1 .. fn` ----
+   input  (legacy? ((path (import ...) outs fails) ...) (file ...))   paths as hex atoms
+   output (exit (res ...) (evaluated path ...) (written path ...)) *)
+let run_batch (x : Sexp.t) : string =
+  let module B = Model_batch in
+  let rec bnat n = if n <= 0 then B.O else B.S (bnat (n - 1)) in
+  match x with
+  | L [A legacy; L proj; L files] ->
+    let file_of = function
+      | L [A p; L imps; A outs; A fails] ->
+        (bytes_of_atom p, { B.imports = List.map (function A i -> bytes_of_atom i | _ -> failwith "imp") imps;
+                            B.outs = bnat (int_of_string outs); B.fails = (fails = "1") })
+      | _ -> failwith "batch file" in
+    let proj = List.map file_of proj in
+    let files = List.map (function A f -> bytes_of_atom f | _ -> failwith "batch arg") files in
+    let fuel = B.default_fuel proj in
+    let (st, l) = (if legacy = "1" then B.batch_legacy else B.batch_current) fuel proj B.empty_state files in
+    let res_s = function
+      | B.Ok _ -> "ok" | B.Err B.Cycle -> "cycle" | B.Err B.Missing -> "missing" | B.Err B.Fail -> "fail"
+      | B.Err B.OutLock -> "outlock" | B.Err B.OutOfFuel -> "fuel" in
+    let ex = match B.exit_status l with B.O -> "0" | _ -> "1" in
+    to_string (L [A ex; L (List.map (fun (_, r) -> A (res_s r)) l);
+                  L (List.map (fun p -> A (atom_of_bytes p)) (B.evaluations st));
+                  L (List.map (fun (p, _) -> A (atom_of_bytes p)) (B.artifacts st))])
+  | _ -> failwith "batch"
+
 let run mode (line : string) : string =
   let x = parse line in
   match mode with
@@ -279,6 +305,7 @@ let run mode (line : string) : string =
             L [A (ty t.typ); A (atom_of_bytes t.frag); A (string_of_int (int_of_n t.line));
                A (string_of_int (int_of_n t.col)); A (string_of_int (int_of_n t.off))]) toks)))
      | _ -> failwith "lex")
+  | "batch" -> run_batch x
   | "zdec" -> (match x with A s -> string_of_z (z_of_string s) | _ -> failwith "zdec")
   | _ -> failwith ("mode " ^ mode)
 
